@@ -1187,6 +1187,61 @@ fn cli_conformance(case: &Case, n: usize, inproc: &CaseResult) -> Result<(), Str
 // =============================================================================================
 // run / replay
 
+// =============================================================================================
+// shadowed consts: one const NAME declared several times (file level, inside several scripts, in a nested block), each
+// with its own value.  The debug info must describe every declaration (identified by the span of its name), with the
+// value that declaration has.
+
+fn shadow_const_cases() -> Vec<(Tool, String)> {
+    let mut v = vec![];
+    let anm_entry = ANM_ENTRY.replace('N', "0");
+    for perm in 0..6usize {
+        let vals = PERMS3[perm].map(|k| [3, 5, 7][k]);
+        for file_level in [true, false] { for float in [false, true] {
+            let ty = if float { "float" } else { "int" };
+            let lit = |x: i32| if float { format!("{x}.5") } else { x.to_string() };
+            let top = if file_level { format!("const {ty} NN = {};\n", lit(1)) } else { String::new() };
+            v.push((Tool::new(Kind::Ecl, Game::Th07), format!("{top}void sub0() {{ const {ty} NN = {}; ins_0(); }}\nvoid sub1() {{ const {ty} NN = {}; {{ const {ty} NN = {}; ins_0(); }} ins_0(); }}\nscript timeline0 {{ }}\n", lit(vals[0]), lit(vals[1]), lit(vals[2]))));
+            v.push((Tool::new(Kind::Anm, Game::Th12), format!("{top}{anm_entry}script scrA {{ const {ty} NN = {}; ins_1(); }}\nscript scrB {{ const {ty} NN = {}; {{ const {ty} NN = {}; ins_1(); }} }}\n", lit(vals[0]), lit(vals[1]), lit(vals[2]))));
+            v.push((Tool::new(Kind::Msg, Game::Th06), format!("{top}meta {{ table: {{ 0: {{script: \"scrA\"}}, 1: {{script: \"scrB\"}} }} }}\nscript scrA {{ const {ty} NN = {}; ins_0(); }}\nscript scrB {{ const {ty} NN = {}; {{ const {ty} NN = {}; ins_0(); }} }}\n", lit(vals[0]), lit(vals[1]), lit(vals[2]))));
+        }}
+    }
+    v
+}
+
+/// (class, findings as (signature suffix, detail))
+fn check_shadow_case(tool: Tool, src: &str) -> (String, Vec<(String, Value)>) {
+    let out = drive::compile(tool, src.as_bytes(), &CompileOpts { debug_info: true, ..Default::default() });
+    let det = |what: String, dbg: &Value| json!({"family": "shadowed-consts", "tool": tool.name(), "source": src, "what": what, "consts_in_debug_info": dbg});
+    if let Some(p) = &out.panic { return ("panic".into(), vec![(format!("shadowed-consts:{}", p.signature()), det(p.text.clone(), &Value::Null))]); }
+    let (Some(_), Some(dbg)) = (&out.bytes, &out.debug_info) else { return ("rejected".into(), vec![("shadowed-consts:rejected".into(), det(out.diag.clone(), &Value::Null))]); };
+    let dbg: Value = match serde_json::from_str(dbg) { Ok(v) => v, Err(e) => return ("bad-json".into(), vec![("shadowed-consts:bad-json".into(), det(e.to_string(), &Value::Null))]) };
+    let empty = vec![];
+    let entries: Vec<&Value> = dbg["consts"].as_array().unwrap_or(&empty).iter().filter(|c| c["name"] == "NN").collect();
+    let shown = json!(entries);
+    // the declarations, in source order: offset of the name and the declared value
+    let mut fails = vec![];
+    let mut n_decl = 0;
+    let mut pos = 0;
+    while let Some(i) = src[pos..].find(" NN = ") {
+        let start = pos + i + 1;
+        let rest = &src[start + 5..];
+        let lit: String = rest.chars().take_while(|c| *c != ';').collect();
+        n_decl += 1;
+        let hit = entries.iter().find(|e| e["name-span"].as_array().map_or(false, |s| s.len() == 3 && s[1].as_u64() == Some(start as u64)));
+        match hit {
+            None => fails.push((format!("shadowed-consts:declaration-without-entry:{}", tool.name()), det(format!("no debug-info entry for the `NN` declared at byte {start} (= {lit})"), &shown))),
+            Some(e) => {
+                let ok = if lit.contains('.') { e["value"]["float"].as_f64().map_or(false, |x| (x - lit.parse::<f64>().unwrap_or(f64::NAN)).abs() < 1e-6) } else { e["value"]["int"].as_i64() == lit.parse::<i64>().ok() };
+                if !ok { fails.push((format!("shadowed-consts:wrong-value:{}", tool.name()), det(format!("the `NN` declared at byte {start} is {lit}, the debug info says {}", e["value"]), &shown))); }
+            },
+        }
+        pos = start + 5;
+    }
+    if entries.len() != n_decl { fails.push((format!("shadowed-consts:entry-count:{}", tool.name()), det(format!("{} entries named NN for {n_decl} declarations", entries.len()), &shown))); }
+    (if fails.is_empty() { "ok".into() } else { "MISMATCH".into() }, fails)
+}
+
 pub fn run(tier: &str) -> Report {
     let mut rep = Report::new("C18", tier, "model_checking");
     let thorough = rep.is_thorough();
@@ -1264,6 +1319,19 @@ pub fn run(tier: &str) -> Report {
             }
         }
     }
+    // shadowed consts
+    {
+        let sc = shadow_const_cases();
+        let res = par_map(&sc, Some(deadline), |_, (tool, src)| check_shadow_case(*tool, src));
+        for (k, r) in res.into_iter().enumerate() {
+            let Some((class, fails)) = r else { continue; };
+            rep.evaluations += 1; rep.states += 1; rep.transitions += 1; rep.traces_validated += 4; rep.nontrivial += 1;
+            rep.outcome(&format!("shadowed-consts:{class}"));
+            for (sig, d) in fails { rep.fail(format!("C18:{sig}"), d); }
+            if k == 0 { rep.sample(json!({"family": "shadowed-consts", "source": sc[0].1})); }
+        }
+        rep.extra.insert("shadowed_const_cases".into(), json!(sc.len()));
+    }
     rep.extra.insert("cli_conformance_cases_identical".into(), json!(cli_ok));
     rep.extra.insert("cli_conformance_cases".into(), json!(cli_set.len()));
     if !discard_samples.is_empty() { rep.extra.insert("discard_samples".into(), json!(discard_samples)); }
@@ -1294,6 +1362,13 @@ pub fn run(tier: &str) -> Report {
 }
 
 pub fn replay(detail: &Value) -> i32 {
+    if detail["family"] == "shadowed-consts" {
+        let Some((tool, src)) = shadow_const_cases().into_iter().find(|(t, s)| t.name() == detail["tool"].as_str().unwrap_or("") && s == detail["source"].as_str().unwrap_or("")) else { println!("unknown case"); return 2; };
+        let (class, fails) = check_shadow_case(tool, &src);
+        println!("class: {class}");
+        for (sig, d) in &fails { println!("FAIL C18:{sig}\n  {}", d["what"]); }
+        return if fails.is_empty() { 0 } else { 1 };
+    }
     let Some(case) = case_from_json(detail) else { println!("cannot parse the stored case"); return 2; };
     let corrupt: u32 = std::env::var("VERIF_C18_SELFTEST_CORRUPT").ok().and_then(|v| v.parse().ok()).unwrap_or(0);
     println!("format {}\n---- source ----\n{}----------------", case.tool.name(), case.src);
